@@ -53,7 +53,8 @@ def run(tier, acc):
     res = core.trace_validate(acc, "Trace_Serialize", "Trace_Serialize.cfg", trace, "Trace_Serialize")
     if res["specerr"]:
         acc.spec_errors += [{"trace_record": x} for x in res["specerr"]]
-    if len(res["bad"]) != len(rep["violations"]):
+    # (one record may carry two violations: encoder differs and round trip fails)
+    if (len(res["bad"]) == 0) != (len(rep["violations"]) == 0) or len(res["bad"]) > len(rep["violations"]):
         raise core.ToolError(f"trace spec and harness disagree: TLC {len(res['bad'])} vs harness {len(rep['violations'])}")
     acc.drift += len(res["drift"])
     acc.add_report(rep)
